@@ -75,10 +75,19 @@ def setup(ctx):
                 else:
                     x = np.asarray(input)
                 x = np.real(x).astype(float)
-                if not _last_range:
-                    ctx.not_observed("adc.post")
-                    return r
-                vmin, vmax = _last_range[0]
+                if _last_range:
+                    vmin, vmax = _last_range[0]
+                else:
+                    # the spy saw no range estimate during this call: fall back to the definition itself (shortest interval
+                    # holding 99.99% of the samples), usable when that interval is unique
+                    ctx.not_observed("adc.spy")
+                    d = np.sort(x)
+                    lag = int(d.size * 99.99 / 100)
+                    w = d[lag:] - d[:d.size - lag]
+                    k = np.flatnonzero(w == w.min())
+                    if k.size != 1:
+                        return r
+                    vmin, vmax = float(d[k[0]]), float(d[k[0] + lag])
                 ok = isinstance(r, T.electrical_signal) and r.signal.shape == x.shape
                 if not ctx.check("adc.post", ok, f"ADC output shape {getattr(getattr(r, 'signal', None), 'shape', None)} for input {x.shape}"):
                     return r
@@ -232,12 +241,33 @@ def w_known_patterns(ctx, rng, i):
     ctx.case(("pat", i % len(pats)), sample={"data": d, "percent": p})
 
 
+def w_buffer_reuse(ctx, rng, i):
+    """one sample buffer refilled / rescaled in place between ADC calls (an acquisition loop): every call must quantise the data the
+    buffer holds NOW."""
+    n_samp = int(rng.choice([1000, 10000, 20000]))
+    buf = np.empty(n_samp)
+    nbits = int(rng.integers(2, 11))
+    otype = "vn"[int(rng.integers(2))]
+    ctx.describe(n_samp=n_samp, nbits=nbits, otype=otype)
+    for k in range(4):
+        scale = float(10 ** rng.uniform(-4, 2))
+        if k == 2:
+            buf *= float(rng.uniform(3, 30))                 # rescaled in place
+        else:
+            buf[:] = rng.normal(rng.normal(0, 1) * scale, scale, n_samp)
+        with core.quiet():
+            D.ADC(buf, n=nbits, otype=otype)                 # adc.* monitors decide
+            D.ADC(T.electrical_signal(buf), n=nbits, otype=otype)
+    ctx.case(("reuse", n_samp, nbits, otype), sample=dict(n_samp=n_samp, n=nbits, otype=otype, calls=8) if i < 2 else None)
+
+
 WORKLOADS = [
     Workload("adc", w_adc, 1500, 60000, budget=120),
     Workload("adc_errors", w_adc_errors, 5, 50),
     Workload("shortest", w_shortest, 8000, 400000),
     Workload("known_patterns", w_known_patterns, 8, 8),
     Workload("repo_tests", lambda ctx, rng, i: core.run_repo_tests(ctx), 1, 1, budget=1800, tiers=("thorough",)),
+    Workload("buffer_reuse", w_buffer_reuse, 40, 2000, budget=120),
 ]
 
 
